@@ -258,8 +258,8 @@ def run(ctx):
                 "sharing a prefix of the key), shard keys, string sets, endpoint shards with localities, watched type sets, HTTPMatchRequest "
                 "maps (headers, withoutHeaders incl. JWT-claim names and names in both maps, queryParams), byNamespace maps, endpoint-slice sets; "
                 "perm: seeded meshes of 20-70 objects (Kubernetes services/pods/endpoint slices, multi-host and multi-address ServiceEntries, "
-                "WorkloadEntries, VirtualServices incl. gateway-bound and wildcard hosts, DestinationRules, Sidecars, Gateways, "
-                "PeerAuthentication, AuthorizationPolicy, RequestAuthentication, EnvoyFilter, Telemetry, WasmPlugin; 1-2 distinct creation "
+                "WorkloadEntries, ExternalName and overlapping-selector services, VirtualServices incl. gateway-bound (http/tls/tcp) and wildcard hosts, DestinationRules, Sidecars, Gateways, "
+                "PeerAuthentication, AuthorizationPolicy, RequestAuthentication, EnvoyFilter, Telemetry, WasmPlugin, ProxyConfig; random MeshConfig variants; 1 in 12 meshes three times larger; 1-2 distinct creation "
                 "timestamps in 3 of 4 meshes; every sixth mesh in ambient mode with a waypoint) + 11 hand-written witness meshes; distinct = hash of (ops, outputs); non-trivial = at least one op / observation")
     ctx.assumptions = [
         "a Go sort routine called with a strict weak order returns an ordered permutation of its input (IsSort); nothing else about it is assumed",
